@@ -34,6 +34,7 @@ again with an oracle that is independent of Lean, of the translated formulas and
 import copy
 import json
 import os
+import pickle
 import random
 
 import mpmath
@@ -49,7 +50,8 @@ LEAN = {"module": "Pygom.Props.C14",
         + ["Pygom.C14.%s_diff_loss_is_derivative" % c for c in ("square", "normal", "poisson", "gamma", "negbinom")]
         + ["Pygom.C14.%s_diff2_is_second_derivative" % c for c in ("square", "normal", "poisson", "gamma", "negbinom")]
         + ["Pygom.C14.%s_diff_loss_weighted" % c for c in ("square", "normal", "poisson", "gamma", "negbinom")]
-        + ["Pygom.C14.normal_loss_weighted", "Pygom.C14.raw_eq_unit_weight"]}
+        + ["Pygom.C14.normal_loss_weighted", "Pygom.C14.raw_eq_unit_weight"]
+        + ["Pygom.C14.session_is_pure", "Pygom.C14.earlier_results_kept", "Pygom.C14.repeat_reproduces", "Pygom.C14.objects_do_not_interact"]}
 BUDGET = {"quick": {"cases": 2500, "session": 800, "search": 5000, "search_session": 1500},
           "thorough": {"cases": 150000, "session": 40000, "search": 40000, "search_session": 10000}}
 RULE = ("random loss objects: class in {Square, Normal, Poisson, Gamma, NegBinom}; n in 1..7 observations (integers, zero included, "
@@ -63,7 +65,9 @@ RULE = ("random loss objects: class in {Square, Normal, Poisson, Gamma, NegBinom
         "session is non-trivial when every operation returned and some buffer was re-used with changed content")
 ASSUMPTIONS = ["scipy.stats log-densities are the reference densities (executable reference, also compared per case with the mpmath closed forms)",
                "float arithmetic of the real code versus real arithmetic: relative tolerance 1e-8 (references are accurate to ~1e-13)",
-               "the translated term denotes what the Python expression computes elementwise (translator, validated per case numerically)"]
+               "the translated term denotes what the Python expression computes elementwise (translator, validated per case numerically)",
+               "a kernel object is its data: the Lean model has no per-object, per-class or per-module state (session_is_pure ...); the session cases test "
+               "that on the real objects with buffers refilled in place, sibling objects, kept results and re-read containers, they do not prove it"]
 TRUSTED = ["harness/translate_kernels.py (symbolic executor + Lean/numpy printers)", "scipy.stats reference densities", "mpmath (50 digits)"]
 
 CLASSES = ["Square", "Normal", "Poisson", "Gamma", "NegBinom"]
@@ -402,11 +406,15 @@ def _gen_session(r, force=None):
     core = [{"obj": 0, "meth": m, "aw": aw, "yhat": i, "via": via} for i in (a, b, a)]
     if r.random() < 0.35:      # cost, gradient, curvature, cost while the solver's buffer moves on
         core += [{"obj": 0, "meth": mm, "aw": aw, "yhat": i, "via": via} for mm, i in zip(("loss", "diff_loss", "diff2Loss", "loss"), (a, b, a, b))]
+    if has_w and r.random() < 0.6:     # same buffer, same content, the other weighting
+        core += [{"obj": 0, "meth": m, "aw": not aw, "yhat": a, "via": via}, {"obj": 0, "meth": m, "aw": aw, "yhat": a, "via": via}]
+    if len(objs) > 1 and r.random() < 0.7:      # same buffer, same content, the other object and back
+        core += [{"obj": 1, "meth": m, "aw": aw, "yhat": a, "via": via}, {"obj": 0, "meth": m, "aw": aw, "yhat": a, "via": via}]
     pos = sorted(r.randrange(len(ops) + 1) for _ in core)
     for off, (p_, op) in enumerate(zip(pos, core)):
         ops.insert(p_ + off, op)
-    if r.random() < 0.25:
-        ops.insert(r.randrange(1, len(ops)), {"op": "deepcopy", "obj": r.randrange(len(objs))})
+    if r.random() < 0.3:
+        ops.insert(r.randrange(1, len(ops)), {"op": "deepcopy", "obj": r.randrange(len(objs)), "how": r.choice(["deepcopy", "pickle"])})
     if r.random() < 0.3:
         fresh_y = _gen_obj(r, cls, N, matrix)["y"] if objs[0]["y_form"].startswith(("float", "list_float", "tuple_float")) else None
         if fresh_y is None:
@@ -421,7 +429,8 @@ def _gen_session(r, force=None):
         # the rebuilt object is used right away and again through the core buffer
         ops.insert(k + 1, {"obj": 0, "meth": r.choice(METHODS), "aw": aw, "yhat": a, "via": via})
         ops.insert(k + 2, {"obj": 0, "meth": "loss", "aw": aw, "yhat": b, "via": r.choice(VIAS)})
-    return {"kind": "session", "cls": cls, "layout": layout, "n": n, "objs": objs, "yhats": yhats, "yhat_dtype": "int" if yhat_int else "float", "ops": ops}
+    return {"kind": "session", "cls": cls, "layout": layout, "n": n, "objs": objs, "yhats": yhats, "yhat_dtype": "int" if yhat_int else "float", "ops": ops,
+            "scribble": r.random() < 0.3}
 
 
 def _container(vals, form, shape):
@@ -582,15 +591,19 @@ def _run_session(case):
         return sol[:, 1:3]
 
     fresh_kept, kept, first_seen = [], [], {}
+    scribble, scribbled = bool(case.get("scribble")), []
+    if scribble:
+        tags.append("caller-overwrites-results")
     buffer_content, reused_changed, all_returned = {"buffer": None, "view": None}, False, True
     for idx, op in enumerate(case["ops"]):
         L = live[op["obj"]]
         if op.get("op") == "deepcopy":
-            tags.append("op:deepcopy")
+            how = op.get("how", "deepcopy")
+            tags.append("op:" + how)
             try:
-                L["obj"] = copy.deepcopy(L["obj"])
+                L["obj"] = copy.deepcopy(L["obj"]) if how == "deepcopy" else pickle.loads(pickle.dumps(L["obj"]))
             except Exception as exc:
-                violation("%s:session:deepcopy-raises" % cls, "copy.deepcopy(%s object) raised %r" % (cls, exc))
+                violation("%s:session:%s-raises" % (cls, how), "%s of a %s object raised %r" % (how, cls, exc))
             continue
         if op.get("op") == "rebuild":
             tags.append("op:rebuild-on-refilled-y")
@@ -640,7 +653,10 @@ def _run_session(case):
             else:
                 violation("%s.%s:session:raises" % (cls, meth), "%s raised %s: %s" % (label, type(exc).__name__, str(exc)[:200]))
             continue
-        kept.append((idx, label, res, copy.deepcopy(res)))
+        if scribble and isinstance(res, np.ndarray) and res.flags.writeable:
+            scribbled.append((res, copy.deepcopy(res)))       # judged below on the copy; the caller then overwrites ITS result array
+        else:
+            kept.append((idx, label, res, copy.deepcopy(res)))
         # ---- shape
         want_shape = () if meth == "loss" else out_shape
         if np.shape(res) != want_shape:
@@ -687,6 +703,8 @@ def _run_session(case):
             violation("%s.%s:session:mutates-prediction" % (cls, meth), "%s wrote into the prediction array it was given" % label)
             if via == "buffer": buf[...] = shaped
             if via == "view": sol[...] = sol_expected
+        if scribbled and scribbled[-1][0] is res:
+            res[...] = -12345.0         # a returned array is the caller's: what the caller does to it must not reach the object (checked by the later values)
     # ------------------------------------------------------------------ afterwards
     for idx, label, res, snap in kept:
         if not _same(np.asarray(res), np.asarray(snap)):
